@@ -119,7 +119,10 @@ pub fn get_rules() -> Vec<Arc<Rule>> {
 pub fn clear_rules() {
     CURRENT_RULES.lock().unwrap().clear();
     BREAKER_RULES.write().unwrap().clear();
-    BREAKER_MAP.write().unwrap().clear();
+    // dropping a breaker notifies the listeners, which may call back into this module:
+    // drop the old breakers only after `BREAKER_MAP` has been released
+    let old_breaker_map = std::mem::take(&mut *BREAKER_MAP.write().unwrap());
+    drop(old_breaker_map);
 }
 
 pub fn append_rule(rule: Arc<Rule>) -> bool {
@@ -253,10 +256,13 @@ pub fn load_rules(rules: Vec<Arc<Rule>>) -> bool {
     }
 
     *BREAKER_RULES.write().unwrap() = valid_rules_map;
-    *global_breaker_map = valid_breaker_map;
+    let old_breaker_map = std::mem::replace(&mut *global_breaker_map, valid_breaker_map);
     *global_rule_map = rule_map;
     drop(global_rule_map);
     drop(global_breaker_map);
+    // dropping a breaker notifies the listeners, which may call back into this module:
+    // drop the replaced breakers only after the locks have been released
+    drop(old_breaker_map);
     logging::debug!(
         "[CircuitBreakerTrait load_rules] Time statistic(ns) for updating flow rule, time cost {}",
         utils::curr_time_nanos() - start
@@ -279,12 +285,16 @@ pub fn load_rules_of_resource(res: &String, rules: Vec<Arc<Rule>>) -> Result<boo
     // clear resource rules
     if rules.is_empty() {
         global_rule_map.remove(res);
-        global_breaker_map.remove(res);
+        let old_res_cbs = global_breaker_map.remove(res);
         BREAKER_RULES.write().unwrap().remove(res);
         logging::info!(
             "[CircuitBreakerTrait] clear resource level rules, resource {}",
             res
         );
+        // breakers notify the listeners when dropped: do that outside the locks
+        drop(global_breaker_map);
+        drop(global_rule_map);
+        drop(old_res_cbs);
         return Ok(true);
     }
     // load resource level rules
@@ -312,18 +322,23 @@ pub fn load_rules_of_resource(res: &String, rules: Vec<Arc<Rule>>) -> Result<boo
     let valid_res_rules_string = format!("{:?}", &valid_res_rules);
     let new_res_tcs = build_resource_circuit_breaker(res, &valid_res_rules, old_res_tcs);
 
-    if new_res_tcs.is_empty() {
-        global_breaker_map.remove(res);
+    // breakers notify the listeners when dropped: keep the replaced ones alive until the
+    // locks have been released
+    let old_res_cbs = if new_res_tcs.is_empty() {
         BREAKER_RULES.write().unwrap().remove(res);
+        global_breaker_map.remove(res)
     } else {
-        global_breaker_map.insert(res.clone(), new_res_tcs);
         BREAKER_RULES
             .write()
             .unwrap()
             .insert(res.clone(), valid_res_rules);
-    }
+        global_breaker_map.insert(res.clone(), new_res_tcs)
+    };
 
     global_rule_map.insert(res.clone(), rules);
+    drop(global_breaker_map);
+    drop(global_rule_map);
+    drop(old_res_cbs);
     logging::debug!(
         "[CircuitBreakerTrait onResourceRuleUpdate] Time statistics(ns) for updating circuit breaker rule, timeCost: {}",
         utils::curr_time_nanos() - start
@@ -399,7 +414,9 @@ pub fn remove_circuit_breaker_generator(s: &BreakerStrategy) -> Result<()> {
 pub fn clear_rules_of_resource(res: &String) {
     BREAKER_RULES.write().unwrap().remove(res);
     CURRENT_RULES.lock().unwrap().remove(res);
-    BREAKER_MAP.write().unwrap().remove(res);
+    // breakers notify the listeners when dropped: do that after `BREAKER_MAP` is released
+    let old_res_cbs = BREAKER_MAP.write().unwrap().remove(res);
+    drop(old_res_cbs);
 }
 
 pub fn calculate_reuse_index_for(
@@ -433,6 +450,10 @@ pub fn build_resource_circuit_breaker(
     old_res_cbs: &mut Vec<Arc<dyn CircuitBreakerTrait>>,
 ) -> Vec<Arc<dyn CircuitBreakerTrait>> {
     let mut new_res_cbs = Vec::with_capacity(rules_of_res.len());
+    // old breakers whose statistics were handed over; they are given back to `old_res_cbs`
+    // at the end instead of being dropped here, because dropping a breaker notifies the
+    // listeners and the callers hold the manager locks while building
+    let mut retired = Vec::new();
     for rule in rules_of_res {
         if res != &rule.resource {
             logging::error!("unmatched resource name expect: {}, actual: {}. Unmatched resource name in CircuitBreakerTrait::build_resource_circuit_breaker(), rule: {:?}", res, rule.resource, rule);
@@ -472,10 +493,11 @@ pub fn build_resource_circuit_breaker(
 
         if reuse_stat_idx != usize::MAX {
             // remove old cb from old_res_tcs
-            old_res_cbs.remove(reuse_stat_idx);
+            retired.push(old_res_cbs.remove(reuse_stat_idx));
         }
         new_res_cbs.push(cb);
     }
+    old_res_cbs.append(&mut retired);
     new_res_cbs
 }
 
